@@ -349,29 +349,56 @@ func (in *Interp) selectOp(th *Thread, fr *Frame, ins *ssa.Select) {
 // (virtual time passes) or, in timersFire mode, at a nondeterministic point.
 
 type vtimer struct {
-	ch    *ChanObj
-	fired bool
-	dur   *Term
-	stopped bool
+	ch       *ChanObj
+	fired    bool
+	dur      *Term
+	stopped  bool
 	periodic bool
+	due      int64 // virtual ns at which it fires; -1 = unknown (symbolic duration)
+	period   int64
 }
 
 func (in *Interp) newTimer(dur *Term, periodic bool) *vtimer {
 	in.nextObj++
-	t := &vtimer{ch: &ChanObj{Cap: 1, ID: in.nextObj, Timer: true}, dur: dur, periodic: periodic}
+	t := &vtimer{ch: &ChanObj{Cap: 1, ID: in.nextObj, Timer: true}, dur: dur, periodic: periodic, due: -1}
+	if dur.IsConst() {
+		d := sext(dur.C, dur.Sort.W)
+		if d < 0 {
+			d = 0
+		}
+		t.due = in.vnow + d
+		t.period = d
+		if t.due < in.vnow { // overflow: effectively never
+			t.due = 1<<63 - 1
+		}
+	}
 	in.timers = append(in.timers, t)
 	return t
 }
 
-// fireTimer lets virtual time pass: fires one pending timer some thread is waiting for.
+// fireTimer lets virtual time pass when every thread is blocked: the pending timer with the earliest
+// due time fires (ties and timers with symbolic durations are chosen nondeterministically).
 func (in *Interp) fireTimer() bool {
 	if !in.timersFire {
 		return false
 	}
 	var cands []*vtimer
+	best := int64(1<<63 - 1)
+	unknown := false
 	for _, t := range in.timers {
 		if (!t.fired || t.periodic) && !t.stopped && t.ch.live() == 0 {
-			cands = append(cands, t)
+			if t.due < 0 {
+				unknown = true
+			} else if t.due < best {
+				best = t.due
+			}
+		}
+	}
+	for _, t := range in.timers {
+		if (!t.fired || t.periodic) && !t.stopped && t.ch.live() == 0 {
+			if unknown || t.due == best {
+				cands = append(cands, t)
+			}
 		}
 	}
 	if len(cands) == 0 {
@@ -383,6 +410,14 @@ func (in *Interp) fireTimer() bool {
 	}
 	t := cands[k]
 	t.fired = true
+	if t.due >= 0 {
+		if t.due > in.vnow {
+			in.vnow = t.due
+		}
+		if t.periodic {
+			t.due += t.period
+		}
+	}
 	in.timerFires++
 	if in.timerFires > in.maxTimerFires {
 		panic(pathEnd{Verdict{Kind: "UNWIND", Label: "timer fire budget"}})
